@@ -30,10 +30,23 @@ from .fhdl2smt import Design, Unroller, RefSim
 class Bench:
     def __init__(self, name, top, inputs, consts=None, free_init=None, init_assume=(),
                  assumes=None, bads=None, covers=None, schedule=None, clock_domains=("sys",),
-                 info=None, fairness=None, tick_inputs=None, always_tick=()):
+                 info=None, fairness=None, tick_inputs=None, always_tick=(), abstract_memories=None, concrete_factory=None):
         self.name = name
         self.top = top
         self.inputs = collections.OrderedDict(inputs)
+        # abstract_memories: callable(Memory) -> watch-address expression (or None): those memories keep only the watched word
+        # (fhdl2smt.MemoryToWatched); concrete_factory() builds the same bench without the abstraction, used to replay models
+        self.concrete_factory = concrete_factory
+        self._concrete = None
+        self.memory_abstraction = None
+        if abstract_memories is not None:
+            frag = top.get_fragment()
+            tr = fhdl2smt.MemoryToWatched(abstract_memories)
+            tr.transform_fragment(frag)
+            for sgn in tr.free_inputs:
+                self.inputs[sgn.name_override] = sgn
+            self.memory_abstraction = dict(memories=len(tr.words), free_read_inputs=len(tr.free_inputs))
+            top = frag
         self.consts = collections.OrderedDict(consts or {})
         self.free_init = collections.OrderedDict(free_init or {})
         self.init_assume = list(init_assume)
@@ -59,6 +72,14 @@ class Bench:
 
     def state_bits(self):
         return self.design.state_bits()
+
+    def replay_bench(self):
+        """the bench a solver model is replayed on: the un-abstracted twin when memories were abstracted"""
+        if self.concrete_factory is None:
+            return self
+        if self._concrete is None:
+            self._concrete = self.concrete_factory()
+        return self._concrete
 
 
 class Unrolled:
@@ -310,7 +331,7 @@ def simulate(bench, stim, watch=None, nframes=None):
     out = []
     frames = stim["frames"] if nframes is None else stim["frames"][:nframes]
     for t, fr in enumerate(frames):
-        sim.set_inputs({bench.inputs[n]: _signed_fix(bench.inputs[n], v) for n, v in fr.items()})
+        sim.set_inputs({bench.inputs[n]: _signed_fix(bench.inputs[n], v) for n, v in fr.items() if n in bench.inputs})
         rec = {"assume": {n: sim.get(s) & 1 for n, s in bench.assumes.items()},
                "bad": {n: sim.get(s) & 1 for n, s in bench.bads.items()},
                "cover": {n: sim.get(s) & 1 for n, s in bench.covers.items()}}
@@ -329,6 +350,9 @@ def simulate(bench, stim, watch=None, nframes=None):
 def replay_confirms(bench, stim, kind, name, t, watch=None):
     """does the real Migen evaluation reproduce goal (kind,name) at frame t with
     all assumptions satisfied in frames 0..t ?"""
+    if bench.replay_bench() is not bench:
+        bench = bench.replay_bench()        # memories abstracted for the solver: replay on the real memories
+        watch = getattr(bench, "watch", None) if watch is not None else None
     recs = simulate(bench, stim, watch=watch, nframes=t + 1)
     for i, r in enumerate(recs):
         if not all(r["assume"].values()):
